@@ -475,7 +475,18 @@ func (fr *frame) builtin(st *PState, b *ssa.Builtin, c *ssa.CallCommon, site ssa
 	case "append":
 		return fr.appendOp(st, c)
 	case "copy":
-		bail("builtin copy")
+		// copy(dst, src) into a slice with a backing array in the slice heap: the elements of that heap become unknown
+		// (which elements are overwritten is not tracked); byte slices are values in this model and cannot be the target
+		dst := fr.term(st, c.Args[0])
+		sl, isSlice := c.Args[0].Type().Underlying().(*types.Slice)
+		if !isSlice || dst.Sort != SSlice {
+			bail("builtin copy into %s", dst.Sort)
+		}
+		name, h, _ := st.sliceHeap(sl.Elem())
+		st.heaps[name] = st.Fresh(name+"_copy", h.Sort)
+		n := st.Fresh("copied", SInt)
+		st.Assume(And(App(SBool, "<=", IntLit(0), n), App(SBool, "<=", n, App(SInt, "slen", dst))))
+		return n
 	case "delete":
 		fr.mapDelete(st, c)
 		return T{S: "unit", Sort: SUnit}
